@@ -91,3 +91,48 @@ Proof.
       destruct (H2 s' Hs E) as [Q1 Q2]. now rewrite Q1, Q2. }
     rewrite Hw, Ht, F1, B2, B3, S1, S2, Hm. reflexivity.
 Qed.
+
+(** the oracle for inputs that may contain single-child inner nodes *)
+Theorem resolve_ok_single_meaning t g :
+  resolve_ok_single t g = None <->
+  wf g = true /\ sset_eqb (ssort (leaves t)) (ssort (leaves g)) = true /\
+  (Forall (fun x => degree x <= 3) (nodes g) /\ 2 <= degree g) /\
+  count_single g = count_single t /\
+  (forall s, In s (usplits t) -> exists s', find_split (sside s) (usplits g) = Some s' /\ same_len_sup s s' = true) /\
+  (forall s', In s' (usplits g) -> find_split (sside s') (usplits t) = None ->
+              qeqb (slen s') 0%Q = true /\ qeqb (ssup s') nilv = true) /\
+  matrix_eqb (dist_matrix len0 t) (dist_matrix len0 g) = true.
+Proof.
+  unfold resolve_ok_single, added_splits. split.
+  - intros H.
+    destruct (wf g); cbn [negb andb] in H; [|discriminate].
+    destruct (sset_eqb (ssort (leaves t)) (ssort (leaves g))); cbn [negb andb] in H; [|discriminate].
+    destruct (forallb (fun x => Nat.leb (degree x) 3) (nodes g)) eqn:E1; cbn [negb andb] in H; [|discriminate].
+    destruct (Nat.leb 2 (degree g)) eqn:E2; cbn [negb andb] in H; [|discriminate].
+    destruct (Nat.eqb (count_single g) (count_single t)) eqn:E5; cbn [negb andb] in H; [|discriminate].
+    destruct (splits_sub same_len_sup (usplits t) (usplits g)) eqn:E3; cbn [negb andb] in H; [|discriminate].
+    match type of H with (if negb ?X then _ else _) = _ => destruct X eqn:E4; cbn [negb andb] in H; [|discriminate] end.
+    destruct (matrix_eqb (dist_matrix len0 t) (dist_matrix len0 g)); cbn [negb andb] in H; [|discriminate].
+    repeat split; auto.
+    + apply Forall_forall. intros x Hx. rewrite forallb_forall in E1. now apply Nat.leb_le, E1.
+    + now apply Nat.leb_le.
+    + now apply Nat.eqb_eq.
+    + now apply splits_sub_spec.
+    + rewrite forallb_forall in E4. assert (Hin : In s' (filter (fun s => match find_split (sside s) (usplits t) with None => true | Some _ => false end) (usplits g))).
+      { apply filter_In. split; auto. now rewrite H1. }
+      specialize (E4 _ Hin). apply andb_true_iff in E4. tauto.
+    + rewrite forallb_forall in E4. assert (Hin : In s' (filter (fun s => match find_split (sside s) (usplits t) with None => true | Some _ => false end) (usplits g))).
+      { apply filter_In. split; auto. now rewrite H1. }
+      specialize (E4 _ Hin). apply andb_true_iff in E4. tauto.
+  - intros [Hw [Ht [[B1 B3] [Hc [H1 [H2 Hm]]]]]].
+    assert (F1 : forallb (fun x => Nat.leb (degree x) 3) (nodes g) = true).
+    { apply forallb_forall. intros x Hx. rewrite Forall_forall in B1. now apply Nat.leb_le, B1. }
+    apply Nat.leb_le in B3. apply Nat.eqb_eq in Hc.
+    assert (S1 : splits_sub same_len_sup (usplits t) (usplits g) = true) by now apply splits_sub_spec.
+    assert (S2 : forallb (fun s => qeqb (slen s) 0%Q && qeqb (ssup s) nilv)
+                         (filter (fun s => match find_split (sside s) (usplits t) with None => true | Some _ => false end) (usplits g)) = true).
+    { apply forallb_forall. intros s' Hs. apply filter_In in Hs. destruct Hs as [Hs Hn].
+      destruct (find_split (sside s') (usplits t)) eqn:E; [discriminate|].
+      destruct (H2 s' Hs E) as [Q1 Q2]. now rewrite Q1, Q2. }
+    rewrite Hw, Ht, F1, B3, Hc, S1, S2, Hm. reflexivity.
+Qed.
